@@ -1,30 +1,18 @@
 import MidoModel.Smf
 import MidoProofs.Lemmas.Vlq
+import MidoProofs.Spec.SmfEnc
+import MidoProofs.Lemmas.SmfEnc
+import MidoProofs.Props.C07
 /-!
   C08 — file bytes conform to the Standard MIDI File format in both directions.
 -/
 namespace Mido
 open List
 
-/-- a byte string denotes the number `n` as a variable-length quantity, with any amount of
-    (legal) padding: continuation bytes ≥ 0x80, one final byte < 0x80 -/
-inductive VlqDenotes : List Nat → Nat → Nat → Prop
-  | last (acc b : Nat) (h : b < 128) : VlqDenotes [b] acc (acc * 128 + b)
-  | cont (acc b : Nat) (rest : List Nat) (n : Nat) (h1 : 128 ≤ b) (h2 : b < 256)
-      (h : VlqDenotes rest (acc * 128 + b % 128) n) : VlqDenotes (b :: rest) acc n
-
 /-- **Padded VLQs are read.** Any standard-conformant spelling of a number, however much it is
     padded with 0x80 bytes, is read back as that number. -/
 theorem C08_read_any_vlq (d : List Nat) (acc n : Nat) (h : VlqDenotes d acc n) (rest : List Nat) :
-    readVlqAcc acc (d ++ rest) = .ok (n, rest) := by
-  induction h with
-  | last acc b hb =>
-    simp only [singleton_append, readVlqAcc, hb, if_true]
-    congr 2; omega
-  | cont acc b r n h1 h2 _ ih =>
-    simp only [cons_append, readVlqAcc]
-    rw [if_neg (by omega)]
-    exact ih
+    readVlqAcc acc (d ++ rest) = .ok (n, rest) := readVlqAcc_denotes d acc n h rest
 
 /-- padding with 0x80 does not change the value -/
 theorem C08_padding (d : List Nat) (n : Nat) (h : VlqDenotes d 0 n) : VlqDenotes (0x80 :: d) 0 n :=
@@ -83,5 +71,104 @@ theorem fixEot_last (tr : List TEvent) : ∀ (acc : PyVal) (fixed : List TEvent)
           rw [hr] at h; simp only [bind, Except.bind, pure, Except.pure, Except.ok.injEq] at h; subst h
           obtain ⟨init, t, rfl⟩ := ih _ r hr
           exact ⟨_ :: init, t, rfl⟩
+
+
+/-- **Read direction.**  Every standard-conformant encoding of a file — `EncFile`: any legal use
+    of running status, variable-length quantities padded at will (delta times, sysex and meta
+    lengths), a header chunk of 6 or more bytes — loads to exactly that event list, with clip on
+    or off.  (Single-byte charsets; payloads within the reader's 1 000 000-byte limit, which is
+    part of `EncEv`.) -/
+theorem C08_read_any (cs : Charset) (hcs : cs ≠ .utf8) (f : LFile) (bytes : List Nat) (h : EncFile cs f bytes)
+    (clip : Bool) : readFile cs clip bytes = .ok f :=
+  readFile_enc cs hcs clip f bytes h
+
+/-- on a conformant file `clip=True` and `clip=False` give the same result -/
+theorem C08_clip_same_on_valid (cs : Charset) (hcs : cs ≠ .utf8) (f : LFile) (bytes : List Nat)
+    (h : EncFile cs f bytes) : readFile cs true bytes = readFile cs false bytes := by
+  rw [C08_read_any cs hcs f bytes h true, C08_read_any cs hcs f bytes h false]
+
+/-- **Write direction.**  What `save` writes for a storable file is a member of the encoding
+    relation for exactly the in-memory header and `fix_end_of_track` of every track: exact chunk
+    lengths, running status only where the relation allows it (directly after a channel message
+    of equal status, never across a meta or sysex event), sysex as F0 length data F7. -/
+theorem C08_write_conforms (cs : Charset) (f : MFile) (hs : StorableFile cs f) (bytes : List Nat)
+    (hw : writeFile cs f = .ok bytes) :
+    EncFile cs ⟨f.type, f.tpb, f.tracks.map normTrack⟩ bytes := by
+  unfold writeFile at hw
+  split at hw
+  · cases hw
+  · simp only [bind, Except.bind] at hw
+    cases ha : i16be f.type with
+    | error e => rw [ha] at hw; cases hw
+    | ok a =>
+      rw [ha] at hw; simp only at hw
+      cases hb : i16be (f.tracks.length : Int) with
+      | error e => rw [hb] at hw; cases hw
+      | ok b =>
+        rw [hb] at hw; simp only at hw
+        cases hc : i16be f.tpb with
+        | error e => rw [hc] at hw; cases hw
+        | ok c =>
+          rw [hc] at hw; simp only at hw
+          cases hbody : writeTracks cs f.tracks with
+          | error e => rw [hbody] at hw; cases hw
+          | ok body =>
+            rw [hbody] at hw; simp only [pure, Except.pure, Except.ok.injEq] at hw; subst hw
+            obtain ⟨a1, a2, rfl, hsa⟩ := enc16_i16be _ _ ha
+            obtain ⟨b1, b2, rfl, hsb⟩ := enc16_i16be _ _ hb
+            obtain ⟨c1, c2, rfl, hsc⟩ := enc16_i16be _ _ hc
+            have ht := writeTracks_enc cs hs.charset f.tracks body hs.events hs.chunk hbody
+            have := EncFile.mk (cs := cs) ⟨f.type, f.tpb, f.tracks.map normTrack⟩ a1 a2 b1 b2 c1 c2 [] body
+              hsa (by simpa using hsb) hsc (by decide) ht
+            simpa using this
+
+/-- the two directions compose to the round trip of C07 (an independent second proof of it) -/
+theorem C08_roundtrip_via_spec (cs : Charset) (f : MFile) (hs : StorableFile cs f) (bytes : List Nat)
+    (hw : writeFile cs f = .ok bytes) (clip : Bool) :
+    readFile cs clip bytes = .ok ⟨f.type, f.tpb, f.tracks.map normTrack⟩ :=
+  C08_read_any cs hs.charset _ bytes (C08_write_conforms cs f hs bytes hw) clip
+
+/-- the writer's quantities are the minimal spelling and denote the number -/
+theorem C08_writer_vlq (n : Nat) : VlqDenotes (encVlq n) 0 n := denotes_encVlq n
+
+/-- A hand-made alternative encoding of a small file: header chunk of 8 bytes, delta times padded
+    with 0x80, a padded meta length, running status used for the second note and the status byte
+    repeated for the third.  It is a member of the relation, so `C08_read_any` applies; the
+    reader's result is also computed directly. -/
+def altBytes : List Nat :=
+  [77, 84, 104, 100, 0, 0, 0, 8, 0, 0, 0, 1, 0, 96, 7, 7,
+   77, 84, 114, 107, 0, 0, 0, 20,
+   0x80, 0, 0x90, 60, 64,
+   0x81, 0, 62, 0,
+   0, 0x90, 64, 1,
+   0x80, 0x80, 5, 0xff, 0x2f, 0x80, 0]
+
+def altFile : LFile := ⟨0, 96, [[⟨.msg (.chan3 .note_on 0 60 64), 0⟩, ⟨.msg (.chan3 .note_on 0 62 0), 128⟩,
+  ⟨.msg (.chan3 .note_on 0 64 1), 0⟩, ⟨.metaEv ⟨.end_of_track, []⟩, 5⟩]]⟩
+
+example : EncFile .latin1 altFile altBytes ∧ readFile .latin1 false altBytes = .ok altFile ∧
+    readFile .latin1 true altBytes = .ok altFile := by
+  refine ⟨?_, by decide +kernel, by decide +kernel⟩
+  have hbody : EncBody .latin1 none altFile.tracks[0]
+      ([0x80, 0] ++ [0x90, 60, 64] ++ ([0x81, 0] ++ [62, 0] ++ ([0] ++ [0x90, 64, 1] ++
+        ([0x80, 0x80, 5] ++ [0xff, 0x2f, 0x80, 0] ++ [])))) := by
+    refine .cons none _ [0x80, 0] [0x90, 60, 64] _ _ ?_ ?_ ?_
+    · exact .cont 0 0x80 [0] 0 (by decide) (by decide) (.last _ 0 (by decide))
+    · exact .full (.chan3 .note_on 0 60 64) (by decide) (by decide) (by intro d h; cases h)
+    refine .cons _ _ [0x81, 0] [62, 0] _ _ ?_ ?_ ?_
+    · exact .cont 0 0x81 [0] 128 (by decide) (by decide) (.last _ 0 (by decide))
+    · exact .running (.chan3 .note_on 0 62 0) (by decide) (by decide) (by decide)
+    refine .cons _ _ [0] [0x90, 64, 1] _ _ ?_ ?_ ?_
+    · exact .last 0 0 (by decide)
+    · exact .full (.chan3 .note_on 0 64 1) (by decide) (by decide) (by intro d h; cases h)
+    refine .cons _ _ [0x80, 0x80, 5] [0xff, 0x2f, 0x80, 0] _ _ ?_ ?_ (.nil _)
+    · exact .cont 0 0x80 _ 5 (by decide) (by decide) (.cont _ 0x80 _ 5 (by decide) (by decide) (.last _ 5 (by decide)))
+    · exact .metaEv ⟨.end_of_track, []⟩ [] [0x80, 0] (by decide) (by decide) (by decide)
+        (.cont 0 0x80 [0] 0 (by decide) (by decide) (.last _ 0 (by decide))) (by decide)
+  have htrack := EncTrack.mk (cs := .latin1) _ _ hbody (by decide)
+  have htracks := EncTracks.cons _ [] _ [] htrack .nil
+  have hfile := EncFile.mk (cs := .latin1) altFile 0 0 0 1 0 96 [7, 7] _ ⟨by decide, by decide, by decide⟩
+    ⟨by decide, by decide, by decide⟩ ⟨by decide, by decide, by decide⟩ (by decide) htracks
+  exact hfile
 
 end Mido
